@@ -522,6 +522,8 @@ def main(argv=None):
         os.chdir(VERIF)
         os.execve(sys.executable, [sys.executable, "-m", "sim.runner"] + argv, env)
     sys.path.insert(0, VERIF)
+    import warnings
+    warnings.filterwarnings("ignore", message="coroutine .* was never awaited")
     # the code under test: /repo's working tree, or a scratch copy for mutants
     sys.path.insert(0, os.environ.get("VERIF_REPO", "/repo"))
     import argparse
